@@ -242,7 +242,12 @@ class _HamiltonianSystem(_DynamicalSystem):
             Compiled function implementing Hamilton's equations.
         """
 
-        jac_H, clmo_H, n_dof = self.jac_H, self.clmo_H, self.n_dof
+        # numba cannot lower a closure over numba.typed.List free variables;
+        # homogeneous tuples of arrays are frozen as constants and index the
+        # same way inside the compiled kernels.
+        jac_H = tuple(tuple(np.asarray(blk) for blk in var_derivs) for var_derivs in self.jac_H)
+        clmo_H = tuple(np.asarray(c) for c in self.clmo_H)
+        n_dof = self.n_dof
 
         def _rhs_impl(t: float, state: np.ndarray) -> np.ndarray:
             # Autonomous: t is unused; required for interface consistency
